@@ -786,7 +786,12 @@ func (sc *serverConn) writeFrames() {
 		}
 
 		// write frame
-		err = wm.write.writeFrame(sc)
+		if _, ok := wm.write.(*writeData); ok {
+			// already encoded by startFrameWrite
+			err = sc.framer.endWrite()
+		} else {
+			err = wm.write.writeFrame(sc)
+		}
 		log.Logger.Debug("http2: write Frame: %v, %v", wm, err)
 
 		// report write result
@@ -1135,6 +1140,14 @@ func (sc *serverConn) startFrameWrite(wm frameWriteMsg) {
 
 	sc.writingFrame = true
 	sc.needsFrameFlush = true
+
+	if wd, ok := wm.write.(*writeData); ok {
+		// Encode the frame in the serve goroutine: wd.p is the handler's
+		// buffer, and the handler is released (by st.cw or sc.doneServing)
+		// and reuses it while the writeFrames goroutine may still be
+		// writing this frame. See https://go.dev/issue/58446.
+		sc.framer.startWriteDataPadded(wd.streamID, wd.endStream, wd.p, nil)
+	}
 
 	// Note: for avoid blocking serve goroutine, we let write goroutine to write frame
 	sc.writeFrameCh <- wm
